@@ -244,6 +244,17 @@ class Builder:
             elif kind == "array":
                 v = obj.get(name)
                 kw[name] = None if v is None else [self.conv(ins["type"], x) for x in v]
+            elif ins.get("value") is not None:
+                # the constructor argument of a hardcoded member is documented to be ignored: pass a decoy
+                v = obj.get(name)
+                if isinstance(v, bool):
+                    kw[name] = not v
+                elif isinstance(v, int):
+                    kw[name] = v + 1 if v == 0 else v - 1
+                elif isinstance(v, str):
+                    kw[name] = "".join("z" if ch != "z" else "q" for ch in v) or "decoy"
+                else:
+                    kw[name] = v
             else:
                 kw[name] = self.conv(ins["type"], obj.get(name))
         return kw
